@@ -271,6 +271,40 @@ def corpus():
     return [spec_line(900000 + i, "0110", 0 if i % 2 == 0 else 12345 + i, cols, rows) for i, (cols, rows) in enumerate(out)]
 
 
+LONG_WORDS = ["verification_harness_for_nucleo", "src/matcher/fuzzy_optimal.rs", "pattern_score_accumulator", "CargoWorkspaceManifestTomlLockFileEntry42",
+              "the_quick_brown_fox_jumps"]
+
+
+def gen_longsum(seed):
+    """deterministic many-atom patterns (100-200 atoms of a 20-40 character word, every kind, both polarities)
+    whose atom scores sum to more than 65535 = u16::MAX (and, for the multi-column case, whose column sums do so
+    again): the accumulation width of Pattern::score / Pattern::indices / Pattern::match_list /
+    MultiPattern::score.  Few rows per case: the cost is (atoms x rows) matcher calls on both sides."""
+    out = []
+    w = LONG_WORDS[seed % len(LONG_WORDS)]
+    w2 = LONG_WORDS[(seed + 1) % len(LONG_WORDS)]
+    w40 = LONG_WORDS[3]
+    w20 = (LONG_WORDS[4] + LONG_WORDS[2])[:20 + seed % 5]
+    # 1: Pattern::parse, 150 fuzzy atoms of the same word (the shape of the minimal witness), + MultiPattern
+    out.append((["PSS:" + cps(" ".join([w] * 150))], [[w], ["lib/" + w + ".rs"], [w.upper()], ["unrelated"]]))
+    # 2: Pattern::parse, every marker, negated atoms in between (they add 0), 162 atoms
+    marks = [w, "'" + w, "^" + w, w + "$", "^" + w + "$", "!zq7", "!^zq", w[:24], "'" + w[3:]]
+    out.append((["PIS:" + cps(" ".join(marks[i % len(marks)] for i in range(162)))], [[w], [w.upper()], ["x" + w]]))
+    # 3: Pattern::new (one kind for all words), 200 atoms of a 20-24 character word
+    out.append((["WSSS:" + cps(" ".join([w20] * 200))], [[w20], ["a/" + w20 + "/b"], [w20[:-1]]]))
+    # 4: explicit atoms, mixed kinds / polarities / case modes, 180 atoms of a 40 character word
+    atoms = []
+    for i in range(180):
+        neg = i % 7 == 3
+        atoms.append("%d%s%s%s0:%s" % (neg, KINDS[i % 5], CASES[i % 3], NORMS[i % 2], cps("no_such_text" if neg else w40)))
+    out.append((["L" + "+".join(atoms)], [[w40], [w40.lower()], ["no_such_text"]]))
+    # 5: two parsed columns of 100 + 110 atoms: each column sum and the MultiPattern sum pass 65535 (and 2 x 65535)
+    out.append((["PSS:" + cps(" ".join([w40] * 100)), "PRN:" + cps(" ".join(["^" + w2 + "$", w2] * 55))], [[w40, w2], ["_" + w40, w2], [w40, w2[1:]]]))
+    # 6: 100 atoms: sums not far above the limit
+    out.append((["PSS:" + cps(" ".join([w] * 100))], [[w], ["a-" + w], [w[:5] + "-" + w[5:]]]))
+    return [spec_line(950000 + i, "0110" if i % 2 == 0 else "1001", 0 if i % 2 == 0 else 777 + seed + i, cols, rows) for i, (cols, rows) in enumerate(out)]
+
+
 def gen_specs(seed, tier):
     rng = random.Random(seed * 1000003 + 15)
     n = 9000 if tier == "quick" else 40000
@@ -421,10 +455,20 @@ def show_atom(a):
                                                           txt(a["needle"]), a["repr"], a["ic"], a["nm"])
 
 
+def show_atoms(atoms, keep=4):
+    if len(atoms) <= 2 * keep:
+        return ", ".join(show_atom(a) for a in atoms)
+    return "%s, ... %d more ..., %s" % (", ".join(show_atom(a) for a in atoms[:keep]), len(atoms) - keep - 1, show_atom(atoms[-1]))
+
+
+def show_scores(ss):
+    return str(ss) if len(ss) <= 12 else "[%s, ... %d more ..., %s] (sum %s)" % (", ".join(str(x) for x in ss[:6]), len(ss) - 7, ss[-1], sum(x for x in ss if isinstance(x, int)))
+
+
 def show_case(c, k=None):
     cols = c["cols"] if k is None else [c["cols"][k]]
     return "cfg(paths,ignore_case,normalize,prefer_prefix)=%s scramble=%d columns=[%s] rows=%s" % (
-        c["cfg"], c["scramble"], " | ".join("[" + ", ".join(show_atom(a) for a in col) + "]" for col in cols),
+        c["cfg"], c["scramble"], " | ".join("[" + show_atoms(col) + "]" for col in cols),
         [[txt(t[1]) for t in r] for r in c["rows"]][:8])
 
 
@@ -490,7 +534,7 @@ def oracle(c, o):
             hay = txt(c["rows"][rws[r]][k][1])
             ss = [oc["atoms"][j]["s"][r] for j in range(len(atoms))]
             ps, (pis, pii) = oc["ps"][r], oc["pi"][r]
-            tag = "%spattern [%s] on %r: " % (where, ", ".join(show_atom(a) for a in atoms), hay)
+            tag = "%spattern [%s] on %r: " % (where, show_atoms(atoms), hay)
             if any(isinstance(x, str) for x in ss + [ps, pis]):
                 if isinstance(ps, str) or isinstance(pis, str):
                     fail("panic", tag + "Pattern::score / indices panicked (%s, %s)" % (ps, pis))
@@ -503,7 +547,7 @@ def oracle(c, o):
                 if oc["pc"][r] != wantc:
                     fail("state", tag + "matcher.config (ignore_case,normalize) after Pattern::score is %s, the last atom evaluated (#%d) has %s" % (oc["pc"][r], last, wantc), col=k, row=rws[r])
             if ps != want:
-                fail("pattern", tag + "Pattern::score = %s but the atoms score %s, so expected %s" % (ps, ss, want), col=k, row=rws[r])
+                fail("pattern", tag + "Pattern::score = %s but the atoms score %s, so expected %s" % (ps, show_scores(ss), want), col=k, row=rws[r])
             if pis != ps:
                 fail("indices", tag + "Pattern::indices returns %s but Pattern::score returns %s" % (pis, ps), col=k, row=rws[r])
             if ps is not None:
@@ -563,7 +607,7 @@ def run(ctx, broken, limit=None):
     """limit = N: reduced run for the neighbouring properties (C02, C10): corpus + the first N structured cases"""
     main, mal, exh = gen_specs(ctx["seed"], ctx["tier"] if limit is None else "quick")
     res = {"evaluations": 0, "distinct_nontrivial": 0, "rule": "", "samples": [], "disagreements": [], "failures": [], "extra": {}}
-    streams = [("corpus", corpus()), ("structured", main), ("malformed", mal)] + ([("exhaustive", exh)] if exh else [])
+    streams = [("corpus", corpus()), ("longsum", gen_longsum(ctx["seed"])), ("structured", main), ("malformed", mal)] + ([("exhaustive", exh)] if exh else [])
     if limit is not None:
         streams = [("corpus", corpus()), ("structured", main[:limit])]
         exh = []
@@ -616,7 +660,8 @@ def run(ctx, broken, limit=None):
     res["samples"] = samples
     res["exhaustive"] = False
     res["rule"] = ("seeded structured generator: column patterns as TEXT (Pattern::parse with markers/escapes; Pattern::new; explicit Atom::new lists of every kind x polarity x case/normalization "
-                   "mode, incl. negated fuzzy and empty needles; 12-40 atom lists), needles derived from the haystacks (subsequence / slice / prefix / postfix / whole, case- and "
+                   "mode, incl. negated fuzzy and empty needles; 12-40 atom lists; a deterministic longsum stream of 100-200 atom patterns of a 20-40 character word, "
+                   "parsed / Pattern::new / explicit, one and two columns, whose atom scores sum to more than 65535 per column), needles derived from the haystacks (subsequence / slice / prefix / postfix / whole, case- and "
                    "character-perturbed) so that most patterns match, 1-3 columns x 1-7 rows drawn with repetition from a small pool (ties for the stable sort); separate malformed stream "
                    "(marker-only and escape-heavy texts, empty needles/haystacks, CR LF, combining marks, column-count mismatches, zero columns/rows)"
                    + ("; thorough: all atom lists of length <= 2 over 2 x 5 x 6 atoms on all 40 haystacks of length <= 3, and all pattern texts of length <= 4 over 8 symbols" if exh else "")
